@@ -36,7 +36,7 @@ PLAN = {
         rule="driver: all P8/P16 source patterns; P32 lattice + every P8/P16 rounding boundary +-2 ulp as a P32 pattern + random"),
     "C09": dict(suites=["C09"], mc=["MCLaws"],
         rule="driver: every P8E0/P16E1 pattern; P32E2 lattice + every scale x {x.0, x.5, +-ulp} + random; five functions"),
-    "C10": dict(suites=["C10"], mc=["MCLaws"],
+    "C10": dict(suites=["C10", "C10G"], mc=["MCLaws"],
         rule="driver: all P8E0 pairs x 21 comparison/selection spellings; P16/P32 lattice pairs with neighbours, negations, random; "
              "clamp triples; every unary sign/class function on every P8/P16 pattern"),
     "C17": dict(suites=["C17"],
@@ -59,6 +59,25 @@ PLAN = {
              "P32 boundary words and a stride sweep of the 2^27 x 4 space) + StdRng streams over many seeds, through Distribution::sample "
              "and Rng::gen; every sample checked against the contract of the Sample action: real and 0 <= p < 1; "
              "distinct = distinct sample values per type, non-trivial = non-zero"),
+    "C13": dict(suites=["C13"], mc=["MCRound", "MCLaws"],
+        rule="driver: PxE1<N> and PxE2<N> for every N in 2..=32: all operand pairs for N <= 6 (quick) / 8 (thorough) and all triples "
+             "for N <= 4, lattice pairs/triples with directed partners above; + - * / (operator and assign forms), mul_add, mul_sub, "
+             "sub_product, sqrt (PxE2), round, neg; operands and results are the 32-bit left-aligned storage, the spec checks the low "
+             "32-N bits of every result are zero and the N-bit value is the posit-rule rounding"),
+    "C14": dict(suites=["C14"], mc=["MCConv"],
+        rule="driver: for every N in 2..=32 and both exponent sizes: generic -> f32/f64/i32/u32/i64/u64/P8/P16/P32/other generic width "
+             "(all patterns for N <= 10/12, lattice + random above); f32/f64 -> generic at every rounding boundary of the target +-1 float "
+             "ulp; integers; P8 (all), P16 (stride), P32 (lattice + target boundaries) -> generic; Q32E2 histories read back as PxE2<N>"),
+    "C16": dict(suites=["C16"], profiles=["dev", "release"], compare_profiles=True,
+        filter=lambda v: v.get("mode") == "profile_diff" or v["event"].get("o") in ("panic", "timeout"),
+        rule="driver: every public operation and spelling of P8E0/P16E1/P32E2 (arithmetic, comparisons, conversions, elementary "
+             "functions, polynomials, quires, sampling) and of PxE1<N>/PxE2<N> for every N in 2..=32 on hostile operands (0, NaR, "
+             "+-minpos, +-maxpos, +-1, powers of two, all-ones, type MIN/MAX integers, special floats) plus lattice and random samples; "
+             "the same seeded program runs in the overflow-checked and the optimised build, both must return normally on every call "
+             "(watchdog for non-termination) and produce identical traces; distinct = distinct (type, op, operands)",
+        assumptions=["explicit not-implemented stubs are excluded: P32E2 sin/cos/tan for |x| >= 393216 (todo!()), PxE1::from_i64 / from_u32, "
+                     "powi, log, log10, exp_m1, ln_1p, num_traits::Float::{abs_sub, integer_decode} (never called by the driver)",
+                     "non-termination is observed as no progress for 10 s (the slowest legitimate call takes microseconds)"]),
     "C18": dict(suites=["C18"], mc=["MCQuire"],
         rule="driver: x.polyN(&c) for N = 1..18, 3a, 4a, coefficient forms Self and [Self; 1..4], x from {minpos, maxpos, lattice, "
              "random, near 1}, coefficients from lattice/random/zero/NaR, plus well-conditioned cases (x = 2, 1/2, -2, 1.5 with distinct "
